@@ -394,8 +394,8 @@ class Own(Interp):
         return super().key(v)
 
     # ------------------------------------------------------------------ calls
-    def call_repo(self, func, selfobj, args, kwargs, n, env, ctx):
-        r = super().call_repo(func, selfobj, args, kwargs, n, env, ctx)
+    def call_repo_raw(self, func, selfobj, args, kwargs, n, env, ctx):
+        r = super().call_repo_raw(func, selfobj, args, kwargs, n, env, ctx)
         if getattr(func, "cached", False) and r is not None and not (isinstance(r, OV) and r.labels == {IMM}):
             # memoised: every call hands out the same object, which lives in module-level cache storage
             return OV([("G", func.qname + " (memoised result)")], elems=r.elems if isinstance(r, OV) else None)
